@@ -111,8 +111,18 @@ func c17Run(x *core.Ctx) {
 				groups = sh
 			}
 			kv := []string{"base", base, "fault", code, "involved", involved, "pattern", pattern, "n", strconv.Itoa(len(groups))}
+			// one arrangement in three is written with comments, byte order marks and odd line ends between its tokens,
+			// one in five has a byte order mark at the head of every source (files saved by an editor that writes them)
+			srn := rn
+			if a%3 == 2 {
+				srn = &model.Renderer{R: r.Fork(uint64(i*64 + a)), Trivia: 2}
+			}
 			for j, g := range groups {
-				kv = append(kv, fmt.Sprintf("src%d", j), rn.RenderSDoc(&model.SDoc{Items: g}))
+				text := srn.RenderSDoc(&model.SDoc{Items: g})
+				if a%5 == 4 {
+					text = "\ufeff" + text
+				}
+				kv = append(kv, fmt.Sprintf("src%d", j), text)
 			}
 			c := core.NewCase("arrangement", kv...)
 			x.Do(c, func() { c17Check(x, c) })
@@ -198,6 +208,14 @@ func c17Check(x *core.Ctx, c *core.Case) {
 			name = ""
 		}
 		srcs = append(srcs, &ast.Source{Name: name, Input: c.Get(fmt.Sprintf("src%d", j))})
+	}
+	if h := core.HashString(c.Get("src0") + c.Get("base")); h%4 == 1 && !strings.HasPrefix(c.Get("fault"), "reserved-name") {
+		// one of the sources is flagged BuiltIn (a framework's own definitions): the flag says where a definition comes
+		// from, not that it is exempt from anything - except from the ban on names that begin with "__", which the prelude
+		// itself needs lifted (so faults of that class are not played with a flagged source: the unflagged base arrangement
+		// would not be comparable)
+		srcs[int(h>>4)%n].BuiltIn = true
+		x.Count("arrangements_with_a_builtin_flagged_source")
 	}
 	s, err := gqlparser.LoadSchema(srcs...)
 	fault := c.Get("fault")
